@@ -37,6 +37,7 @@ class Listener:
     def __init__(self, name):
         self.name = name
         self.log = []
+        self.seen = []  # what the listener observes through the manager while it is being notified
         self.raise_next = False
 
     def _maybe_raise(self):
@@ -49,10 +50,22 @@ class Listener:
 
     def on_cur(self, system):
         self.log.append(["current", system.GetId()])
+        # re-entrant read-only query from inside the notification
+        try:
+            self.seen.append(["current", system.GetId(), _mgr().GetCurrent().GetId()])
+        except Exception as e:
+            self.seen.append(["current", system.GetId(), ["raised", type(e).__name__]])
         self._maybe_raise()
 
     def on_unit(self, category, unit):
         self.log.append(["unit", category, unit])
+        try:
+            m = _mgr()
+            probe_unit = CATS[category][0] if category in CATS else None
+            conv = list(m.ConvertToCurrent(category, probe_unit, 1.0)) if probe_unit else None
+            self.seen.append(["unit", category, unit, m.GetCategoryDefaultUnit(category), conv[1] if conv else None, probe_unit])
+        except Exception as e:
+            self.seen.append(["unit", category, unit, ["raised", type(e).__name__], None, None])
         self._maybe_raise()
 
 
@@ -230,6 +243,10 @@ class MgrGen:
             if op is not None:
                 break
             kind = rng.choice(["admin", "query", "listener"])
+        if kind == "query" and not op.get("f") and self.cfg.get("intr_rate", 0) > 0 and rng.random() < self.cfg["intr_rate"]:
+            # F7: KeyboardInterrupt at the k-th executed barril line inside a read-only manager call
+            op["intr"] = int(min(200, max(1, rng.expovariate(1.0 / 12))))
+            op["f"] = "F7.interrupt"
         op["i"] = self.i
         self.i += 1
         return op
@@ -397,6 +414,7 @@ class MgrMonitor(Mon.Monitor):
         self.pre_real = real_state(m)
         self.pre_model = sim.user["model"].state()
         self.pre_logs = {n: len(l.log) for n, l in LISTENERS.items()}
+        self.pre_seen = {n: len(l.seen) for n, l in LISTENERS.items()}
 
     def after(self, sim, op, out):
         from barril.units.unit_database import UnitDatabase
@@ -531,6 +549,16 @@ class MgrMonitor(Mon.Monitor):
 
         fault = op.get("f")
         sig0 = {"op": _short(op["k"])}
+        # ---- what a listener sees through the manager while it is being notified is the new state
+        for n, l in LISTENERS.items():
+            for ev in l.seen[self.pre_seen.get(n, 0) :]:
+                if ev[0] == "current":
+                    sim.check(ev[2] == ev[1], "C17.current_registered", dict(sig0, case="stale_during_notification"), step, lambda: "listener %s notified of current %r but GetCurrent() answered %r inside the notification" % (n, ev[1], ev[2]))
+                else:
+                    cat, unit, seen_default, seen_conv, probe = ev[1:]
+                    sim.check(seen_default == unit, "C17.convert", dict(sig0, case="stale_during_notification", api="GetCategoryDefaultUnit"), step, lambda: "listener %s notified of (%r, %r) but GetCategoryDefaultUnit answered %r inside the notification" % (n, cat, unit, seen_default))
+                    if probe is not None and not isinstance(seen_default, list):
+                        sim.check(seen_conv == (unit if unit is not None else probe), "C17.convert", dict(sig0, case="stale_during_notification", api="ConvertToCurrent"), step, lambda: "listener %s notified of (%r, %r) but ConvertToCurrent answered in %r inside the notification" % (n, cat, unit, seen_conv))
         # ---- acceptance <=> the model's rule
         if must_reject:
             if not (op.get("f") or "").startswith("F1."):
@@ -649,7 +677,7 @@ def _state_case(now, want):
 
 class C17:
     prop = "C17"
-    expected_faults = ["F1.rejected_call", "F2.peer_exception", "F3.listener_death"]
+    expected_faults = ["F1.rejected_call", "F2.peer_exception", "F3.listener_death", "F7.interrupt"]
 
     def draw_cfg(self, rng, tier):
         ncat = rng.randint(1, 3)
@@ -663,6 +691,7 @@ class C17:
             "ids": IDS[: rng.randint(2, 5)],
             "listeners": LISTENER_NAMES[: rng.randint(1, 4)],
             "n_steps": rng.randint(lo, hi),
+            "intr_rate": rng.choice([0, 0, 0.1, 0.25]),
             "weights": {
                 "admin": rng.choice([2, 3, 4]),
                 "user": rng.choice([1, 2, 3]),
